@@ -301,8 +301,10 @@ def _taproot_json_docs():
     from btclib.psbt.psbt_in import PsbtIn
     from btclib.psbt.psbt_out import PsbtOut
     cb = "c0" + "11" * 32
-    return [("PsbtOut", PsbtOut(taproot_tree=[(1, 0xC0, "51"), (1, 0xC0, "52")]).to_dict()),
+    import json
+    docs = [("PsbtOut", PsbtOut(taproot_tree=[(1, 0xC0, "51"), (1, 0xC0, "52")]).to_dict()),
             ("PsbtIn", PsbtIn(taproot_leaf_scripts={cb: ("51", 0xC0)}).to_dict())]
+    return [(name, json.loads(json.dumps(doc))) for name, doc in docs]     # as a json reader hands them over: lists, no tuples
 
 
 def g_json_intfields(R, rng, n):
@@ -326,6 +328,8 @@ def g_json_intfields(R, rng, n):
                 for v in vals:
                     C.call_spec(R, "json.intfields", ep, [G.json_spec(G.json_set(doc, p, v))], {}, fn=fn, consumers=True)
                     done += 1
+    if not done:
+        raise RuntimeError("json.intfields: no int position found in the taproot records (to_dict shape changed?)")
     return done
 
 
